@@ -337,6 +337,47 @@ def wide_cases(rng, n):
     return out
 
 
+def seq_cases(rng, n):
+    """constant sequence expressions that ConstantFolding rewrites (repeat factors, slices of constant tuples,
+    concatenation); every container carries a fresh int so that the cases cannot meet in the pool.
+    Expectation: CPython (P) only."""
+    atoms = ["0", "0.0", "-0.0", "1", "1.0", "True", "False", "None", "2147483648", "'s'"]
+    out = []
+    tag = 5000
+    while len(out) < n:
+        tag += 1
+        a, b, c = (rng.choice(atoms) for _ in range(3))
+        k = rng.choice(["0", "1", "2", "3", "-1", "True", "False"])
+        i, j = rng.choice(["", "0", "1", "2", "-1", "-2", "5", "None"]), rng.choice(["", "0", "1", "2", "3", "-1", "5", "None"])
+        t = rng.randrange(12)
+        if t == 0:
+            e = "(%s, %s, %d) * %s" % (a, b, tag, k)
+        elif t == 1:
+            e = "%s * (%s, %d)" % (k, a, tag)
+        elif t == 2:
+            e = "(%s, %d) * %s * %s" % (a, tag, k, rng.choice(["2", "3", "0"]))
+        elif t == 3:
+            e = "(%s, %s, %s, %d)[%s:%s]" % (a, b, c, tag, i, j)
+        elif t == 4:
+            e = "(%s, %d) + (%s, %s, %d)" % (a, tag, b, c, tag)
+        elif t == 5:
+            e = "[%s, %s, %d] * %s" % (a, b, tag, k)
+        elif t == 6:
+            e = "(%s, %s, %d)[%s]" % (a, b, tag, rng.choice(["0", "1", "-1", "2", "-3"]))
+        elif t == 7:
+            e = "((%s, %d), (%s, %d)) * %s" % (a, tag, b, tag, k)
+        elif t == 8:
+            e = "(%s, %s, %d) * 2 == (%s, %s, %d, %s, %s, %d)" % (a, b, tag, a, b, tag, a, b, tag)
+        elif t == 9:
+            e = "frozenset((%s, %s, %s, %d))" % (a, b, c, tag)
+        elif t == 10:
+            e = "(*(%s, %d), %s)" % (a, tag, b)
+        else:
+            e = "slice(%s, %s, %d)" % (a, b, tag)
+        out.append(e)
+    return out
+
+
 # ---------------------------------------------------------------------------
 # pooled constants (ConstPool.tla)
 
